@@ -70,7 +70,7 @@ def run(ctx, profile=PROFILE, checks=CHECKS, strict=STRICT, depth=None, nrand=No
         _one(ctx, eng, counters, before, checks, strict, nontrivial)
         if ctx.shard == 0 and n in (50, 5000):
             ctx.sample({"prelude_base": bname, "ops": ops})
-    nrand = nrand or (1500 if quick else 6000)
+    nrand = ctx.n(nrand or (1500 if quick else 6000))
     for i in range(nrand):
         before = dict(counters)
         eng = histories.generate(rng, profile, checks, rng.randint(40, 120), strict, counters,
